@@ -43,6 +43,7 @@ type Replayer struct {
 	tags    string
 	gcflags string
 	race    bool
+	goarch  string
 }
 
 func NewReplayer(name string) *Replayer {
@@ -91,6 +92,9 @@ func (r *Replayer) Build() error {
 	cmd := exec.Command("go", args...)
 	cmd.Dir = repoDir
 	cmd.Env = append(os.Environ(), "GOFLAGS=-mod=mod", "GOPROXY=off")
+	if r.goarch != "" {
+		cmd.Env = append(cmd.Env, "GOARCH="+r.goarch, "CGO_ENABLED=0")
+	}
 	out, err := cmd.CombinedOutput()
 	if err != nil {
 		return fmt.Errorf("go test -c failed: %v\n%s", err, out)
